@@ -37,15 +37,16 @@ type session struct {
 	reload  string // none | pending
 	curLine string // command being answered
 	// linux
-	lastStatus  int
-	ps1Set      bool
-	modified    bool
-	busyDone    bool
-	lastEvent   *sim.Event
-	curFault    string       // kind of fault applied to the line being processed
-	joined      bool         // current line arrived in the same packet as the previous one
-	hold        bytes.Buffer // output not yet sent
-	unresBefore map[string]bool
+	lastStatus   int
+	ps1Set       bool
+	modified     bool
+	busyDone     bool
+	lastEvent    *sim.Event
+	curFault     string       // kind of fault applied to the line being processed
+	joined       bool         // current line arrived in the same packet as the previous one
+	hold         bytes.Buffer // output not yet sent
+	unresBefore  map[string]bool
+	callHomeDone bool
 }
 
 func main() {
@@ -688,6 +689,22 @@ func (s *session) ciscoLoop() {
 			case line == "":
 				s.event(line, class, "accepted")
 				s.ciscoReply(line, "")
+			case line == "configure terminal" && sp.Type == "asa" && sp.CallHomeAsk && !s.callHomeDone:
+				s.event(line, class, "accepted")
+				s.w("%s\r\n\r\n***************************** NOTICE *****************************\r\n\r\n"+
+					"Help to improve the ASA platform by enabling anonymous reporting,\r\nwhich allows Cisco to securely receive minimal error and health\r\n"+
+					"information from the device.\r\n\r\nWould you like to enable anonymous error reporting to help improve\r\nthe product? [Y]es, [N]o, [A]sk later: ", line)
+				a := s.readLine()
+				switch strings.ToUpper(strings.TrimSpace(a)) {
+				case "Y", "N":
+					s.callHomeDone = true
+					s.event("call-home reporting anonymous: answer "+a+" (stored in the configuration)", "config-change", "accepted")
+				default:
+					s.event("<call-home question: "+a+">", "dialogue", "accepted")
+				}
+				s.mode = "config"
+				s.dev.EnterConfig()
+				s.w("%s\r\n%s", a, s.prompt())
 			case line == "configure terminal":
 				s.event(line, class, "accepted")
 				out := ""
